@@ -112,7 +112,9 @@ struct GenState {
       BreakPoint bp = this->out.line_info[this->getNextPos() - 1];
       this->out.line_info.erase(
           this->out.line_info.find(this->getNextPos() - 1));
-      this->out.potential_breaks.erase(this->out.potential_breaks.find(bp));
+      auto sites = this->out.potential_breaks.find(bp);
+      sites->second.pop_back();  // the removed site is the newest one of bp
+      if (sites->second.empty()) this->out.potential_breaks.erase(sites);
       out.code.pop_back();
     }
   }
